@@ -7,7 +7,7 @@ S=$1; shift
 mkdir -p $S
 for id in "$@"; do
   P=${id%%-*}; D=/verif/seeded/$id; W=$S/$id
-  rm -rf $W; git clone -q /repo $W || exit 2
+  rm -rf $W; git clone -q ${SWEEP_REPO:-/repo} $W || exit 2
   if ! git -C $W apply $D/patch.diff 2>/tmp/seedsweep-apply.err; then
      if ! git -C $W apply -3 $D/patch.diff 2>>/tmp/seedsweep-apply.err; then echo "$id: patch does not apply to HEAD"; python3 - $D <<'PY'
 import json,sys
